@@ -160,6 +160,16 @@ def chkLine (st : RibSt) (ts : List Tok) : RibSt :=
                 | _ => false
               let st := if impl && !codeSeen
                 then st.monfail "c17" s!"HasRecvClientErrorWithStatus passed although no received error carries a gRPC status with code {want.code}" else st
+              -- and a sufficient one: a received status with the wanted code and message, and the
+              -- wanted details unless IgnoreDetails was given, is the wanted status under every
+              -- combination and order of the options
+              let present := match e with
+                | .clientErr _ rs => rs.any (fun r => match r with
+                    | some s => s.code == want.code && s.msg == want.msg && (ign || s.det == want.det)
+                    | none => false)
+                | _ => false
+              let st := if !impl && pan == "" && present
+                then st.monfail "c17" "HasRecvClientErrorWithStatus reported a fatal failure although a received error carries the wanted status (code, message, and details unless ignored)" else st
               verdict st c (hasRecvStatus e want allow ign) impl pan
             | _, _, _, _ => bad st
           | _ => bad st
